@@ -125,6 +125,9 @@ BuildFails(e) ==
             /\ Len(e.raw) >= size
             /\ \A i \in 1..size : i \notin owned => e.raw[i] = hdr[i]
             /\ Consistent(c, e.raw)
+            (* "the getters return exactly the data and lengths supplied": the object holds the supplied bytes, *)
+            (* all of them and nothing else, behind its header (getLength() = header size + supplied length)    *)
+            /\ (c \in DataClasses => SubSeq(e.raw, size + 1, Len(e.raw)) = a.data)
             /\ (c \in {"can", "canfd"} /\ HasDlcCode(Len(a.data)) => At(e.raw, 14) = DlcCode(Len(a.data)))
             /\ (c = "cm" => LET w == CmFields(e.raw).fields IN
                               /\ Len(w) = 5
